@@ -1479,6 +1479,114 @@ def gen_slc_sweep_cases(rng, sizes):
     return out
 
 
+# =========================================================================== teardown with unsent data queued
+TDQ_SCENARIOS = ['plain', 'both-close', 'peer-writes-then-closes', 'two-callers', 'link-loss']
+
+
+def run_tdq_impl(scenario, mfs, credits, extra_frames, ba_first, burst=False):
+    """A has written more than initial_credits x frame size (data waits for credits) when it calls
+    disconnect(); combined with the peer closing at the same time / the peer sending a short
+    credit-carrying frame and closing / a second disconnect() caller / loss of the link.
+    burst: all frames waiting in one direction are processed in one loop turn (no task runs in between).
+    Returns the first problem or None."""
+    async def main():
+        pair = Pair()
+        await pair.connect()
+        da, db = await pair.open(2, (mfs, credits), (mfs, credits))
+        dlci = da.dlci
+        got = bytearray()
+        db.sink = got.extend
+        da.sink = lambda d: None
+        mtu = da.mtu
+        da.write(gen_bytes(1, (credits + extra_frames) * mtu + 3))
+        if not da.tx_buffer:
+            return 'harness: no data left queued'
+        tasks = []
+
+        def spawn(coro):
+            t = asyncio.ensure_future(coro)
+            t.add_done_callback(lambda t: t.cancelled() or t.exception())
+            tasks.append(t)
+        spawn(da.disconnect())
+        if scenario == 'both-close':
+            spawn(db.disconnect())
+        elif scenario == 'peer-writes-then-closes':
+            db.write(b'x')
+            spawn(db.disconnect())
+        elif scenario == 'two-callers':
+            spawn(da.disconnect())
+        for _ in range(3):
+            await asyncio.sleep(0)
+        if scenario == 'link-loss':
+            pair.ab.clear()
+            pair.ba.clear()
+            pair.la.emit('close')
+            pair.lb.emit('close')
+        discs = {'ab': 0, 'ba': 0}
+        steps = 0
+        while pair.ab or pair.ba:
+            order = (('ba', pair.ba, pair.deliver_ba), ('ab', pair.ab, pair.deliver_ab)) if ba_first else \
+                    (('ab', pair.ab, pair.deliver_ab), ('ba', pair.ba, pair.deliver_ba))
+            for name, q, deliver in order:
+                for _ in range(len(q) if burst else min(1, len(q))):
+                    d, ftype, pf, info = parse_frame(q[0])
+                    if ftype == DISC and d == dlci:
+                        discs[name] += 1
+                    deliver()
+                    if not burst:
+                        for _ in range(3):
+                            await asyncio.sleep(0)
+                for _ in range(3):
+                    await asyncio.sleep(0)
+            steps += 1
+            if steps > 3000:
+                return 'frames still in flight after 3000 rounds'
+        for _ in range(10):
+            await asyncio.sleep(0)
+        pending = [i for i, t in enumerate(tasks) if not t.done()]
+        problem = None
+        if pending:
+            problem = f'disconnect() caller {pending} never concluded (nothing in flight)'
+        sa = pair.ma.dlcs[dlci].state.name if dlci in pair.ma.dlcs else 'absent'
+        sb = pair.mb.dlcs[dlci].state.name if dlci in pair.mb.dlcs else 'absent'
+        if problem is None and (sa != sb or sa not in ('absent', 'RESET')):
+            problem = f'data link ends in {sa} / {sb}'
+        if problem is None and (da.state != db.state):
+            problem = f'DLC objects in states {da.state.name} / {db.state.name}'
+        if problem is None and (discs['ab'] > 1 or discs['ba'] > 1):
+            problem = f'{discs["ab"]} / {discs["ba"]} DISC frames sent for one data link'
+        if problem is None and pair.escaped:
+            problem = f'exception escaped frame processing: {pair.escaped[0]}'
+        for t in tasks:
+            if not t.done():
+                t.cancel()
+        await asyncio.sleep(0)
+        return problem
+    return run_virtual(main())
+
+
+def tdq_cases(ctx):
+    sizes = [23, 64, 127] if ctx.quick() else [23, 24, 64, 127, 128, 1000]
+    for sc in TDQ_SCENARIOS:
+        for mfs in sizes:
+            for cr in (1, 3, 7):
+                for extra in ((1, 40) if not ctx.quick() else (1,)):
+                    for ba_first in (False, True):
+                        for burst in (False, True):
+                            yield sc, mfs, cr, extra, ba_first, burst
+
+
+def run_tdq(ctx):
+    for sc, mfs, cr, extra, ba_first, burst in tdq_cases(ctx):
+        bad = run_tdq_impl(sc, mfs, cr, extra, ba_first, burst)
+        ctx.case(('tdq', sc, mfs, cr, extra, ba_first, burst), sc != 'plain', None)
+        ctx.count(f'tdq.{sc}')
+        if bad:
+            ctx.violation('rfcomm:teardown-queued',
+                          f'disconnect() with unsent data queued, {sc}, frame size {mfs}, {cr} credits: {bad}',
+                          {'kind': 'tdq', 'scenario': sc, 'mfs': mfs, 'credits': cr, 'extra': extra, 'ba_first': ba_first, 'burst': burst})
+
+
 # =========================================================================== HFP SLC
 def _hfp_enums():
     from bumble import hfp
@@ -2098,6 +2206,7 @@ def load_corpus():
 # =========================================================================== run
 def run(ctx):
     ctx.rule = (
+        'teardown with unsent data: disconnect() called while written data waits for credits, alone / with the peer closing at the same time / the peer sending a credit-carrying frame and closing / a second caller / link loss, frame sizes 23..127(1000), credits 1/3/7, both delivery orders: every caller concludes, matching states, one DISC per end. '
         'bidirectional bulk: both ends of 1-2 data links write 36-60 frames worth of data each (frame sizes 23..2043, initial credits 1..7, asymmetric) before anything is delivered, then the wire is drained: both streams exact, both buffers empty, drained set. '
         'data: random multiplexer configurations (1-4 DLCs, max frame size 23..32767 biased to 23/127/128/129/'
         '32766/32767, initial credits 1..7 each side, L2CAP MTU 48..65535) x random schedules of writes (sizes '
@@ -2201,6 +2310,7 @@ def run(ctx):
     run_e2e(ctx, rng.fork('e2e'), ctx.n(4, 40))
     run_e2e_multi(ctx)
     run_e2e_hfp(ctx)
+    run_tdq(ctx)
 
 
 def search(ctx):
@@ -2211,6 +2321,9 @@ def search(ctx):
         replay_one(ctx, c['replay'], report=True)
         if ctx.violations:
             return
+    run_tdq(ctx)
+    if ctx.violations:
+        return
     for hb in range(8):
         for ab in range(8):
             case = gen_slc_case(rng, hb, ab)
@@ -2275,6 +2388,11 @@ def replay_one(ctx, r, report=False):
         trace, bad = run_sm2_impl(r['labels'])
         verdict = bad
         sig = 'rfcomm:multi-teardown'
+    elif r['kind'] == 'tdq':
+        bad = run_tdq_impl(r['scenario'], r['mfs'], r['credits'], r['extra'], r['ba_first'], r.get('burst', False))
+        if bad:
+            verdict = bad
+            sig = 'rfcomm:teardown-queued'
     elif r['kind'] == 'e2e_hfp':
         bad = e2e_hfp_impl(r['mfs'])
         if bad:
